@@ -61,6 +61,9 @@ package console
 //@ lemma rowcol(r uint32, b uint32, r0 uint32, b0 uint32, p uint32): b < p && b0 < p && r*p + b == r0*p + b0 ==> r == r0 && b == b0
 //@   by auto
 //@   property C19 C18 C17
+//@ lemma rowLess(r uint32, b uint32, r0 uint32, b0 uint32, p uint32): b < p && r < r0 ==> r*p + b < r0*p + b0
+//@   by auto
+//@   property C19
 
 // ---- VESA framebuffer console -----------------------------------------------------------------
 //@ pred wfFont(f *font.Font) = f != nil && f.GlyphWidth >= 1 && f.GlyphWidth <= 32 && f.GlyphHeight >= 1 && f.GlyphHeight <= 64 && f.BytesPerRow == (f.GlyphWidth + 7) / 8 && !isnil(f.Data) && len(f.Data) >= 256*f.BytesPerRow*f.GlyphHeight
@@ -104,17 +107,27 @@ package console
 //@ pred inPix(c *VesaFbConsole, r uint32, b uint32, pX uint32, pY uint32, pW uint32, pH uint32) = r >= pY + c.offsetY && r < pY + c.offsetY + pH && b >= pX*c.bytesPerPixel && b < (pX + pW)*c.bytesPerPixel
 //@ pred outsideSame(c *VesaFbConsole, pX uint32, pY uint32, pW uint32, pH uint32) = forall(r, uint32, b, uint32, r < c.height && b < c.pitch && !inPix(c, r, b, pX, pY, pW, pH) ==> fbAt(c, r, b) == old(fbAt(c, r, b)))
 
+// every pixel of the rectangle holds the packed colour (2 bytes; 3 of the 3 or 4 bytes of a pixel)
+//@ pred painted16(c *VesaFbConsole, pX uint32, pY uint32, pW uint32, pH uint32, bg uint8) = forall(r, uint32, x, uint32, r >= pY + c.offsetY && r < pY + c.offsetY + pH && x >= pX && x < pX + pW ==> fbAt(c, r, x*2) == uint8(packed16(c, bg)) && fbAt(c, r, x*2 + 1) == uint8(packed16(c, bg) >> 8))
+//@ pred painted24b(c *VesaFbConsole, pX uint32, pY uint32, pW uint32, pH uint32, bg uint8, B uint32) = forall(r, uint32, x, uint32, r >= pY + c.offsetY && r < pY + c.offsetY + pH && x >= pX && x < pX + pW ==> fbAt(c, r, x*B) == uint8(packed24(c, bg)) && fbAt(c, r, x*B + 1) == uint8(packed24(c, bg) >> 8) && fbAt(c, r, x*B + 2) == uint8(packed24(c, bg) >> 16))
+//@ pred painted24(c *VesaFbConsole, pX uint32, pY uint32, pW uint32, pH uint32, bg uint8) = (c.bytesPerPixel == 3 ==> painted24b(c, pX, pY, pW, pH, bg, 3)) && (c.bytesPerPixel == 4 ==> painted24b(c, pX, pY, pW, pH, bg, 4))
 //@ func (cons *VesaFbConsole) fill16(pX uint32, pY uint32, pW uint32, pH uint32, bg uint8)
 //@   property C19
 //@   requires wfVesa(cons) && (cons.bpp == 15 || cons.bpp == 16) && pX + pW <= cons.width && pY + pH <= cons.height - cons.offsetY
 //@   modifies elems(uint8)
 //@   ensures frame: outsideSame(cons, pX, pY, pW, old(pH))
+//@   ensures exact: painted16(cons, pX, pY, pW, old(pH), bg)
 //@   loop 1 (pH > 0) ghost h0 = pH
 //@   loop 1 invariant pH <= h0 && fbRowOffset == (pY + cons.offsetY + (h0 - pH))*cons.pitch + pX*2 && h0 == old(pH) && cons.bytesPerPixel == 2
 //@   loop 1 invariant rows: outsideSame(cons, pX, pY, pW, h0 - pH)
+//@   loop 1 invariant painted: painted16(cons, pX, pY, pW, h0 - pH, bg)
+//@   loop 1 invariant colour: comp[0] == uint8(packed16(cons, bg)) && comp[1] == uint8(packed16(cons, bg) >> 8)
 //@   loop 2 (fbOffset < fbRowOffset+pW*cons.bytesPerPixel) ghost k = 0
 //@   loop 2 step k = k + 1
 //@   loop 2 invariant k <= pW && fbOffset == fbRowOffset + k*2 && pH >= 1
+//@   loop 2 invariant paintedAbove: painted16(cons, pX, pY, pW, h0 - pH, bg)
+//@   loop 2 invariant colour: comp[0] == uint8(packed16(cons, bg)) && comp[1] == uint8(packed16(cons, bg) >> 8)
+//@   loop 2 invariant paintedRow: painted16(cons, pX, pY + (h0 - pH), k, 1, bg)
 //@   loop 2 invariant cols: forall(r, uint32, b, uint32, r < cons.height && b < cons.pitch && !inPix(cons, r, b, pX, pY, pW, h0 - pH) && !(r == pY + cons.offsetY + (h0 - pH) && b >= pX*2 && b < pX*2 + k*2) ==> fbAt(cons, r, b) == old(fbAt(cons, r, b)))
 //@   loop 2 backedge use forall(r, uint32, b, uint32, rowcol(r, b, pY + cons.offsetY + (h0 - pH), pX*2 + (k-1)*2, cons.pitch)); forall(r, uint32, b, uint32, rowcol(r, b, pY + cons.offsetY + (h0 - pH), pX*2 + (k-1)*2 + 1, cons.pitch))
 
@@ -123,14 +136,21 @@ package console
 //@   requires wfVesa(cons) && (cons.bpp == 24 || cons.bpp == 32) && pX + pW <= cons.width && pY + pH <= cons.height - cons.offsetY
 //@   modifies elems(uint8)
 //@   ensures frame: outsideSame(cons, pX, pY, pW, old(pH))
+//@   ensures exact: painted24(cons, pX, pY, pW, old(pH), bg)
 //@   loop 1 (pH > 0) ghost h0 = pH
 //@   loop 1 invariant pH <= h0 && fbRowOffset == (pY + cons.offsetY + (h0 - pH))*cons.pitch + pX*cons.bytesPerPixel && h0 == old(pH) && (cons.bytesPerPixel == 3 || cons.bytesPerPixel == 4)
 //@   loop 1 invariant rows: outsideSame(cons, pX, pY, pW, h0 - pH)
+//@   loop 1 invariant painted: painted24(cons, pX, pY, pW, h0 - pH, bg)
+//@   loop 1 invariant colour: comp[0] == uint8(packed24(cons, bg)) && comp[1] == uint8(packed24(cons, bg) >> 8) && comp[2] == uint8(packed24(cons, bg) >> 16)
 //@   loop 2 (fbOffset < fbRowOffset+pW*cons.bytesPerPixel) ghost k = 0
 //@   loop 2 step k = k + 1
 //@   loop 2 invariant k <= pW && fbOffset == fbRowOffset + k*cons.bytesPerPixel && pH >= 1
+//@   loop 2 invariant paintedAbove: painted24(cons, pX, pY, pW, h0 - pH, bg)
+//@   loop 2 invariant colour: comp[0] == uint8(packed24(cons, bg)) && comp[1] == uint8(packed24(cons, bg) >> 8) && comp[2] == uint8(packed24(cons, bg) >> 16)
+//@   loop 2 invariant paintedRow: painted24(cons, pX, pY + (h0 - pH), k, 1, bg)
 //@   loop 2 invariant cols: forall(r, uint32, b, uint32, r < cons.height && b < cons.pitch && !inPix(cons, r, b, pX, pY, pW, h0 - pH) && !(r == pY + cons.offsetY + (h0 - pH) && b >= pX*cons.bytesPerPixel && b < pX*cons.bytesPerPixel + k*cons.bytesPerPixel) ==> fbAt(cons, r, b) == old(fbAt(cons, r, b)))
 //@   loop 2 backedge use forall(r, uint32, b, uint32, rowcol(r, b, pY + cons.offsetY + (h0 - pH), (pX + k - 1)*cons.bytesPerPixel, cons.pitch)); forall(r, uint32, b, uint32, rowcol(r, b, pY + cons.offsetY + (h0 - pH), (pX + k - 1)*cons.bytesPerPixel + 1, cons.pitch)); forall(r, uint32, b, uint32, rowcol(r, b, pY + cons.offsetY + (h0 - pH), (pX + k - 1)*cons.bytesPerPixel + 2, cons.pitch))
+//@   loop 2 backedge use forall(r, uint32, x, uint32, rowLess(r, x*3 + 2, pY + cons.offsetY + (h0 - pH), (pX + k - 1)*cons.bytesPerPixel, cons.pitch)); forall(r, uint32, x, uint32, rowLess(r, x*4 + 2, pY + cons.offsetY + (h0 - pH), (pX + k - 1)*cons.bytesPerPixel, cons.pitch))
 
 // Fill in character cells: the same clamping/clipping as the text console, in units of glyphs
 //@ func (cons *VesaFbConsole) Fill(x uint32, y uint32, width uint32, height uint32, fg uint8, bg uint8)
@@ -140,6 +160,8 @@ package console
 //@   ensures nofont: cons.font == nil ==> forall(i, int, 0 <= i && i < len(cons.fb) ==> cons.fb[i] == old(cons.fb[i]))
 //@   ensures frame: cons.font != nil && cons.widthInChars >= 1 && cons.heightInChars >= 1 ==> outsideSame(cons, (clampOrg(x, cons.widthInChars) - 1)*cons.font.GlyphWidth, (clampOrg(y, cons.heightInChars) - 1)*cons.font.GlyphHeight, (clipEnd(clampOrg(x, cons.widthInChars), width, cons.widthInChars) - clampOrg(x, cons.widthInChars) + 1)*cons.font.GlyphWidth, (clipEnd(clampOrg(y, cons.heightInChars), height, cons.heightInChars) - clampOrg(y, cons.heightInChars) + 1)*cons.font.GlyphHeight)
 //@   ensures exact8: cons.font != nil && cons.bpp == 8 && cons.widthInChars >= 1 && cons.heightInChars >= 1 ==> forall(r, uint32, b, uint32, r < cons.height && b < cons.pitch && inPix(cons, r, b, (clampOrg(x, cons.widthInChars) - 1)*cons.font.GlyphWidth, (clampOrg(y, cons.heightInChars) - 1)*cons.font.GlyphHeight, (clipEnd(clampOrg(x, cons.widthInChars), width, cons.widthInChars) - clampOrg(x, cons.widthInChars) + 1)*cons.font.GlyphWidth, (clipEnd(clampOrg(y, cons.heightInChars), height, cons.heightInChars) - clampOrg(y, cons.heightInChars) + 1)*cons.font.GlyphHeight) ==> fbAt(cons, r, b) == bg)
+//@   ensures exact16: cons.font != nil && (cons.bpp == 15 || cons.bpp == 16) && cons.widthInChars >= 1 && cons.heightInChars >= 1 ==> painted16(cons, (clampOrg(x, cons.widthInChars) - 1)*cons.font.GlyphWidth, (clampOrg(y, cons.heightInChars) - 1)*cons.font.GlyphHeight, (clipEnd(clampOrg(x, cons.widthInChars), width, cons.widthInChars) - clampOrg(x, cons.widthInChars) + 1)*cons.font.GlyphWidth, (clipEnd(clampOrg(y, cons.heightInChars), height, cons.heightInChars) - clampOrg(y, cons.heightInChars) + 1)*cons.font.GlyphHeight, bg)
+//@   ensures exact24: cons.font != nil && (cons.bpp == 24 || cons.bpp == 32) && cons.widthInChars >= 1 && cons.heightInChars >= 1 ==> painted24(cons, (clampOrg(x, cons.widthInChars) - 1)*cons.font.GlyphWidth, (clampOrg(y, cons.heightInChars) - 1)*cons.font.GlyphHeight, (clipEnd(clampOrg(x, cons.widthInChars), width, cons.widthInChars) - clampOrg(x, cons.widthInChars) + 1)*cons.font.GlyphWidth, (clipEnd(clampOrg(y, cons.heightInChars), height, cons.heightInChars) - clampOrg(y, cons.heightInChars) + 1)*cons.font.GlyphHeight, bg)
 
 // the glyph row bit mask after m pixels of a byte have been consumed
 //@ spec maskAt(m uint32) uint8 = ite(m == 0, 128, ite(m == 1, 64, ite(m == 2, 32, ite(m == 3, 16, ite(m == 4, 8, ite(m == 5, 4, ite(m == 6, 2, 1)))))))
